@@ -66,6 +66,7 @@ type c12RealIn struct {
 	Times    int     `json:"times"`
 	Trailers int     `json:"trailers"`
 	Timeout  *string `json:"timeout"` // hex; sent in the timeout header of the actual protocol
+	Pad      *c12Pad `json:"pad,omitempty"` // a value the feedback echoes made longer (c12ApplyPad: expect | timeout)
 }
 
 type c12RealObs struct {
@@ -220,6 +221,10 @@ func c12NewTransport(a [7]int) (*c12Transport, error) {
 
 // ---------------------------------------------------------------- one exchange
 
+// c12MidKey: a func() in the context of a full-duplex exchange is called once the first response
+// message has been read (op realoverlap runs other requests at that point).
+type c12MidKey struct{}
+
 type c12PlainReader struct{ io.Reader } // hides Len(): chunked / no content-length, so that trailers can follow
 
 func c12RealEnvelope(comp int, payload []byte) []byte {
@@ -372,6 +377,13 @@ func c12RealExchange(ctx context.Context, tr http.RoundTripper, addr string, in 
 				return fail(fmt.Errorf("full duplex: response message %d: %w", i, err))
 			}
 			respBody = append(respBody, c13Envelope(flags, payload)...)
+			if i == 0 {
+				// the server implementation has answered the first message: the request is inside the
+				// handler chain and stays there until the request body ends
+				if mid, ok := ctx.Value(c12MidKey{}).(func()); ok {
+					mid()
+				}
+			}
 		}
 		_ = pw.Close()
 		rest, err := io.ReadAll(resp.Body)
@@ -504,6 +516,9 @@ func c12Real(c *gen.Ctx, in c12RealIn) []c12RealObs {
 	r.Trailers = in.Trailers
 	if in.Name == "" { // the header is absent rather than empty
 		r.Headers = r.Headers[1:]
+	}
+	if in.Pad != nil {
+		c12ApplyPad(&r, *in.Pad)
 	}
 	ctx, cancel := context.WithTimeout(context.Background(), 30*time.Second)
 	defer cancel()
@@ -751,6 +766,32 @@ func c12RealGen(c *gen.Ctx) {
 		}
 		ins = append(ins, in)
 		c.E.Count("kind:real-odd-name")
+	}
+	// (f) feedback as long as the client makes it: a value the checks echo (an expectation header,
+	// a timeout header) of 4 KiB .. 200 KiB, on a request sent twice - the long line, the lines
+	// around it and the lines of the second exchange must all reach the real runner
+	nLong := 6
+	if thorough {
+		nLong = 40
+	}
+	for i := 0; i < nLong; i++ {
+		t := c12RealTransports[i%3] // HTTP/1.1, h2c, HTTP/1.1 against the h2c server
+		p := c12RealProcs[(i+n)%len(c12RealProcs)]
+		if p.full && t.version != 1 {
+			p.full = false
+		}
+		protocol := r.Intn(3)
+		if p.get {
+			protocol = 0
+		}
+		in := mk(t, p, protocol, r.Intn(2), r.Intn(6))
+		d := gen.Pick(r, []int{0, 3, 4})
+		in.E[d] = (in.A[d] + 1) % c12Dims[d]
+		in.Times = 2
+		in.Name = "Real/long-feedback"
+		in.Pad = &c12Pad{Kind: []string{"expect", "timeout"}[i%2], N: []int{r.Range(65400, 65600), 70000, r.Range(4000, 4200), r.Range(100000, 200000)}[(i/2)%4]}
+		ins = append(ins, in)
+		c.E.Count("kind:real-long-feedback")
 	}
 	anyIns := make([]any, len(ins))
 	for i := range ins {
